@@ -10,6 +10,7 @@ import (
 	"fmt"
 	"sort"
 
+	"github.com/aukilabs/hagall-common/messages/dagazpb"
 	"github.com/aukilabs/hagall-common/messages/hagallpb"
 	"github.com/aukilabs/hagall-common/messages/odalpb"
 	"github.com/aukilabs/hagall-common/messages/vikjapb"
@@ -115,6 +116,10 @@ type Session struct {
 	Types     map[string]uint32
 	TypeNames map[uint32]string
 	Subs      map[uint32]map[uint32]bool // type -> participant set
+	// dagaz: centres of the ground-plane samples accepted so far. The generator
+	// only sends unit quads on a 3 m lattice, which never overlap and therefore
+	// never merge: the plane count and the whole-region listing are exact.
+	Planes map[[3]float32]bool
 	// id ledgers (C10): everything ever issued under this uuid
 	IssuedPIDs, IssuedEIDs, IssuedAIDs map[uint32]bool
 }
@@ -228,6 +233,8 @@ func (r *Req) String() string {
 		s += fmt.Sprintf(" e=%d name=%q ts=%v nil=%v", r.Entity, r.Name, r.ActTS, r.ActNil)
 	case "asset_add":
 		s += fmt.Sprintf(" e=%d asset=%q", r.Entity, r.Name)
+	case "dz_quad":
+		s += fmt.Sprintf(" quads=%v", r.Quads)
 	case "signed_latency":
 		s += fmt.Sprintf(" n=%d wallet=%q", r.Count, r.Wallet)
 	case "receipt":
@@ -296,6 +303,17 @@ func (r *Req) Proto() proto.Message {
 		return m
 	case "asset_add":
 		return &odalpb.AssetInstanceAddRequest{Type: d.TAssetAddReq, Timestamp: r.Tag, RequestId: r.ID, EntityId: r.Entity, AssetId: r.Name}
+	case "dz_quad":
+		m := &dagazpb.DagazQuadSample{Type: d.TQuadSample, Timestamp: r.Tag}
+		for _, q := range r.Quads {
+			m.Samples = append(m.Samples, &dagazpb.Quad{Center: &dagazpb.Point{X: q[0], Y: q[1], Z: q[2]}, Extents: &dagazpb.Point{X: q[3], Y: q[4], Z: q[5]}})
+		}
+		return m
+	case "dz_info":
+		return &dagazpb.DagazGetDebugInfoRequest{Type: d.TDebugInfoReq, Timestamp: r.Tag, RequestId: r.ID}
+	case "dz_region":
+		return &dagazpb.DagazGetRegionRequest{Type: d.TRegionReq, Timestamp: r.Tag, RequestId: r.ID,
+			Min: &dagazpb.Point{X: r.Min[0], Y: r.Min[1], Z: r.Min[2]}, Max: &dagazpb.Point{X: r.Max[0], Y: r.Max[1], Z: r.Max[2]}}
 	}
 	return nil
 }
@@ -828,6 +846,55 @@ func (m *Model) Step(cid int, r *Req, win []*d.Event) *Outcome {
 							EntityAction: &vikjapb.EntityAction{EntityId: r.Entity, Name: r.Name, Timestamp: r.ActTS, Data: r.Data}},
 							Desc: "entity action relay", Props: []string{"C16", "C02", "C01"}})
 					}
+				}
+			}
+		}
+		m.unexplained(o, c, rest, r)
+
+	case "dz_quad":
+		// no answer, no relay; the samples are in the session's grid from now on
+		if has(c.Mods, 'd') {
+			if s.Planes == nil {
+				s.Planes = map[[3]float32]bool{}
+			}
+			for _, q := range r.Quads {
+				s.Planes[[3]float32{q[0], q[1], q[2]}] = true
+			}
+			o.Accepted = true
+		}
+		m.unexplained(o, c, append(answers, rest...), r)
+
+	case "dz_info":
+		if !has(c.Mods, 'd') {
+			m.unexplained(o, c, append(answers, rest...), r)
+			break
+		}
+		if a := expectOK(d.TDebugInfoResp, "C20", "C03"); a != nil {
+			info := a.M.(*dagazpb.DagazGetDebugInfoResponse)
+			if int(info.GridPlaneCount) != len(s.Planes) || info.GridMergeCount != 0 {
+				o.viol([]string{"C20", "C03"}, "dagaz/plane-count", "%s answered plane count %d merge count %d; %d non-overlapping samples were sent to this session (a sample of another session, or a lost one)", r, info.GridPlaneCount, info.GridMergeCount, len(s.Planes))
+			}
+		}
+		m.unexplained(o, c, rest, r)
+
+	case "dz_region":
+		if !has(c.Mods, 'd') {
+			m.unexplained(o, c, append(answers, rest...), r)
+			break
+		}
+		if a := expectOK(d.TRegionResp, "C20", "C03"); a != nil {
+			got := map[[3]float32]int{}
+			for _, q := range a.M.(*dagazpb.DagazGetRegionResponse).Quads {
+				got[[3]float32{q.GetCenter().GetX(), q.GetCenter().GetY(), q.GetCenter().GetZ()}]++
+			}
+			for k := range s.Planes {
+				if got[k] != 1 {
+					o.viol([]string{"C20", "C03"}, "dagaz/region-contents", "%s over the whole grid lists the sample at %v %d times (want once); listed: %v", r, k, got[k], got)
+				}
+			}
+			for k := range got {
+				if !s.Planes[k] {
+					o.viol([]string{"C03", "C20"}, "dagaz/region-contents", "%s lists a plane at %v that was never sent to this session (sent here: %d samples)", r, k, len(s.Planes))
 				}
 			}
 		}
